@@ -146,7 +146,7 @@ class Ctx:
         return out
 
     # ------------------------------------------------------------------ harness
-    def drv(self, mode, infile=None, outfile=None, tracefile=None, args=None, timeout=1800, race=False, env_extra=None):
+    def drv(self, mode, infile=None, outfile=None, tracefile=None, shape_filter=None, args=None, timeout=1800, race=False, env_extra=None):
         """Run the harness in <mode>.  Returns parsed JSON summary printed on the last stdout line."""
         exe = self.build_race_harness() if race else self.build_harness()
         env = dict(os.environ)
@@ -181,6 +181,12 @@ class Ctx:
         if outfile and os.path.exists(outfile) and not getattr(self, "_no_auto_mm", False):
             for m in read_ndjson(outfile):
                 if "shape" in m:
+                    if shape_filter and not shape_filter(m["shape"]):
+                        # a disagreement that belongs to another property's check: counted, not reported here
+                        self.cov.setdefault("mismatches_left_to_other_properties", {})
+                        d = self.cov["mismatches_left_to_other_properties"]
+                        d[m["shape"]] = d.get(m["shape"], 0) + 1
+                        continue
                     self.violation(m["shape"], m["what"], m.get("case"), m.get("site", ""))
         log("[drv] %-22s %.1fs %s" % (mode, res["_wall"], {k: v for k, v in res.items() if k in ("cases", "mismatches", "traces", "events", "runs")}))
         return res
